@@ -126,6 +126,10 @@ func verifC18run(p *vProfile) {
 		sentinel := &Input{name: "sentinel"}
 		info2 := ProvideInfo{ID: 12345, Inputs: []*Input{sentinel}}
 		opts2 := append(f.provideOpts(r, nil), FillProvideInfo(&info2))
+		if verifNdBool("f.locpc") {
+			// reporting another source location does not change which function it is
+			opts2 = append(opts2, LocationForPC(reflect.ValueOf(vcA).Pointer()))
+		}
 		o2 := vGuard(func() error { return c.Provide(mk(f), opts2...) })
 		if o2.class != vcOK {
 			h.assert("C18.untouched", info2.ID == 12345 && len(info2.Inputs) == 1 && info2.Inputs[0] == sentinel && info2.Outputs == nil)
